@@ -38,7 +38,7 @@ class C07(Check):
             'Non-trivial: a file whose queries touch a bit >= 32 or an alias; distinct by hash of definition+queries.')
     ASSUMPTIONS = ['file content in upper case, one label per bit, distinct labels per group (property domain)',
                    'negative numpy int64 values are read as their two\'s complement bit pattern']
-    REQUIRED_COUNTERS = ('queries_touching_bit63', 'alias_queries', 'keyerrors_expected_and_seen', 'roundtrips_of_values_without_defined_bits')
+    REQUIRED_COUNTERS = ('alias_of_alias_definitions', 'queries_touching_bit63', 'alias_queries', 'keyerrors_expected_and_seen', 'roundtrips_of_values_without_defined_bits')
 
     def setup(self):
         import pydl.pydlutils.sdss as S
@@ -91,12 +91,18 @@ class C07(Check):
             if a in names:
                 continue
             names.add(a)
-            aliases[a] = rng.choice(sorted(groups))
+            # the alias of a group, or (rows are applied in file order) the alias of an alias defined by an earlier row
+            aliases[a] = rng.choice(sorted(aliases)) if (aliases and rng.random() < 0.4) else rng.choice(sorted(groups))
         queries = []
         allnames = sorted(groups) + sorted(aliases)
+
+        def chain(g):
+            while g in aliases:
+                g = aliases[g]
+            return g
         for _ in range(40 if cls != 'tiny' else 15):
             g = rng.choice(allnames)
-            real = groups[aliases.get(g, g)]
+            real = groups[chain(g)]
             labels = sorted(real)
             op = rng.choice(['val', 'val', 'name', 'name', 'name', 'exist', 'unknown'])
             gq = recase(rng, g)
@@ -210,10 +216,15 @@ class C07(Check):
             flat = [r for block in rows for r in block]
             L.shuffle(flat)
             rows = [flat]
-        for block in rows:
-            for r in block:
-                lines.append(r)
-                junk(lines)
+        flat = [r for block in rows for r in block]
+        # alias rows keep their mutual order (an alias of an alias needs the earlier row first); everything else stays shuffled
+        pos = [i for i, r in enumerate(flat) if r.startswith('maskalias')]
+        inorder = [r for a in case['aliases'] for r in flat if r.startswith('maskalias') and r.split()[2] == a]
+        for i, r in zip(pos, inorder):
+            flat[i] = r
+        for r in flat:
+            lines.append(r)
+            junk(lines)
         text = '\n'.join(lines)
         if L.random() < 0.8:
             text += '\n'
@@ -236,8 +247,10 @@ class C07(Check):
 
         def resolve(g):
             g = g.upper()
-            g = aliases.get(g, g)
+            while g in aliases:
+                g = aliases[g]
             return groups.get(g)
+        out.count('alias_of_alias_definitions', sum(1 for t in aliases.values() if t in aliases))
         touched_hi = False
         touched_alias = False
         for qi, q in enumerate(case['queries']):
